@@ -264,6 +264,10 @@ impl<Key, Value> CommandExecutor<Key, Value>
     pub(crate) fn verif_queue_len(&self) -> usize {
         self.sender.len()
     }
+
+    pub(crate) fn verif_queue_capacity(&self) -> Option<usize> {
+        self.sender.capacity()
+    }
 }
 
 #[cfg(test)]
